@@ -1,7 +1,10 @@
 package main
 
 import (
+	"encoding/json"
 	"flag"
+	"os"
+	"reflect"
 	"sort"
 
 	"github.com/mit-pdos/go-nfsd/nfstypes"
@@ -115,6 +118,8 @@ func (r *recorder) MOUNTPROC3_EXPORT() (res nfstypes.Exportsopt3) {
 //
 //	disp <prog> <vers> <proc> <method reached> <decode ok>
 func cmdDispatch(fs *flag.FlagSet, args []string) {
+	descPath := fs.String("desc", "", "descriptor JSON (RFC transcription): also deliver TRUNCATED argument messages")
+	seed := fs.Uint64("seed", 1, "seed")
 	fs.Parse(args)
 	r := &recorder{}
 	regs := append(nfstypes.NFS_PROGRAM_NFS_V3_regs(r), nfstypes.MOUNT_PROGRAM_MOUNT_V3_regs(r)...)
@@ -133,5 +138,52 @@ func cmdDispatch(fs *flag.FlagSet, args []string) {
 			ok = 0
 		}
 		emit("disp %d %d %d %s %d", g.Prog, g.Vers, g.Proc, r.called, ok)
+	}
+	if *descPath == "" {
+		return
+	}
+	// a message cut short must never reach the handler: for every procedure with arguments,
+	// proper prefixes of real encodings of generated argument values
+	//	dispt <prog> <vers> <proc> <bytes> <method reached or -> <decode ok>
+	raw, err := os.ReadFile(*descPath)
+	if err != nil {
+		die("dispatch: %v", err)
+	}
+	d := &xdesc{}
+	if err := json.Unmarshal(raw, d); err != nil {
+		die("dispatch: %v", err)
+	}
+	w := &walker{d: d, r: NewRng(*seed)}
+	for _, g := range regs {
+		tn, ok := procArgType[g.Prog][g.Proc]
+		if !ok {
+			continue
+		}
+		for i := 0; i < 4; i++ {
+			t := w.genNamed(tn, 0)
+			v := xdrTypes[tn]()
+			w.fillNamed(tn, reflect.ValueOf(v).Elem(), t)
+			bs, encOk := realEncode(v)
+			if !encOk || len(bs) == 0 || len(bs) > 4096 {
+				continue
+			}
+			cuts := map[int]bool{0: true, 1: true, len(bs) / 2: true, len(bs) - 1: true, len(bs) - 4: true}
+			var cs []int
+			for c := range cuts {
+				if c >= 0 && c < len(bs) {
+					cs = append(cs, c)
+				}
+			}
+			sort.Ints(cs)
+			for _, c := range append(cs, len(bs)) { // the whole message last: it must be accepted
+				r.called = "-"
+				_, err := g.Handler(xdr.MakeReader(append([]byte(nil), bs[:c]...)))
+				dok := 1
+				if err != nil {
+					dok = 0
+				}
+				emit("dispt %d %d %d %s %s %d", g.Prog, g.Vers, g.Proc, hexOr(bs[:c]), r.called, dok)
+			}
+		}
 	}
 }
